@@ -57,9 +57,27 @@ pub struct Deserializer<R> {
     enum_type: EnumType,
     struct_encoding: StructEncoding,
     elem_format_code: Option<EncodingCodes>,
+    /// Current nesting depth of compound and described values
+    depth: usize,
 }
 
+/// Maximum nesting depth of compound and described values that will be decoded. Values are
+/// decoded recursively, so input nested deeper than the stack allows must be refused.
+pub const MAX_NESTING_DEPTH: usize = 128;
+
 impl<'de, R: Read<'de>> Deserializer<R> {
+    /// Runs `f`, which decodes an element of a compound or described value, one nesting
+    /// level deeper
+    fn nested<T>(&mut self, f: impl FnOnce(&mut Self) -> Result<T, Error>) -> Result<T, Error> {
+        if self.depth >= MAX_NESTING_DEPTH {
+            return Err(de::Error::custom("Nesting is too deep"));
+        }
+        self.depth += 1;
+        let result = f(self);
+        self.depth -= 1;
+        result
+    }
+
     /// Creates a new AMQP1.0 (crate)deserializer
     pub fn new(reader: R) -> Self {
         Self {
@@ -69,6 +87,7 @@ impl<'de, R: Read<'de>> Deserializer<R> {
             enum_type: Default::default(),
             struct_encoding: StructEncoding::None,
             elem_format_code: None,
+            depth: 0,
         }
     }
 
@@ -1413,7 +1432,7 @@ impl<'de, R: Read<'de>> de::SeqAccess<'de> for ArrayAccess<'_, R> {
             }
             _ => {
                 self.count -= 1;
-                let result = seed.deserialize(self.as_mut())?;
+                let result = self.as_mut().nested(|de| seed.deserialize(de))?;
                 // Defense in depth: bound iteration by bytes consumed, not
                 // just by `count`. The pre-loop `count <= len` /
                 // `count <= MAX_ARRAY_COUNT` checks already reject the known
@@ -1472,7 +1491,7 @@ impl<'de, R: Read<'de>> de::SeqAccess<'de> for ListAccess<'_, R> {
             0 => Ok(None),
             _ => {
                 self.count -= 1;
-                seed.deserialize(self.as_mut()).map(Some)
+                self.as_mut().nested(|de| seed.deserialize(de)).map(Some)
             }
         }
     }
@@ -1531,7 +1550,7 @@ impl<'de, R: Read<'de>> de::SeqAccess<'de> for TransparentVecAccess<'_, R> {
             None => return Ok(None),
         }
 
-        seed.deserialize(self.as_mut()).map(Some)
+        self.as_mut().nested(|de| seed.deserialize(de)).map(Some)
     }
 }
 
@@ -1570,7 +1589,7 @@ impl<'de, R: Read<'de>> de::MapAccess<'de> for MapAccess<'_, R> {
             0 => Ok(None),
             _ => {
                 self.count -= 1;
-                seed.deserialize(self.as_mut()).map(Some)
+                self.as_mut().nested(|de| seed.deserialize(de)).map(Some)
             }
         }
     }
@@ -1581,7 +1600,7 @@ impl<'de, R: Read<'de>> de::MapAccess<'de> for MapAccess<'_, R> {
     {
         // An odd map count leaves a key without a value
         self.count = self.count.checked_sub(1).ok_or(Error::InvalidLength)?;
-        seed.deserialize(self.as_mut())
+        self.as_mut().nested(|de| seed.deserialize(de))
     }
 
     fn next_entry_seed<K, V>(
@@ -1599,8 +1618,8 @@ impl<'de, R: Read<'de>> de::MapAccess<'de> for MapAccess<'_, R> {
                 // AMQP map count includes both key and value; an odd count
                 // leaves a key without a value
                 self.count = self.count.checked_sub(2).ok_or(Error::InvalidLength)?;
-                let key = kseed.deserialize(self.as_mut())?;
-                let val = vseed.deserialize(self.as_mut())?;
+                let key = self.as_mut().nested(|de| kseed.deserialize(de))?;
+                let val = self.as_mut().nested(|de| vseed.deserialize(de))?;
                 Ok(Some((key, val)))
             }
         }
@@ -1633,7 +1652,7 @@ impl<'de, R: Read<'de>> de::EnumAccess<'de> for VariantAccess<'_, R> {
     where
         V: de::DeserializeSeed<'de>,
     {
-        let val = seed.deserialize(self.as_mut())?;
+        let val = self.as_mut().nested(|de| seed.deserialize(de))?;
         Ok((val, self))
     }
 }
@@ -1649,7 +1668,7 @@ impl<'de, R: Read<'de>> de::VariantAccess<'de> for VariantAccess<'_, R> {
     where
         T: de::DeserializeSeed<'de>,
     {
-        seed.deserialize(self.de)
+        self.de.nested(|de| seed.deserialize(de))
     }
 
     fn tuple_variant<V>(self, len: usize, visitor: V) -> Result<V::Value, Self::Error>
@@ -1793,7 +1812,7 @@ impl<'de, R: Read<'de>> de::SeqAccess<'de> for DescribedAccess<'_, R> {
         let code = byte.try_into()?;
         let result = match code {
             EncodingCodes::DescribedType => {
-                let result = seed.deserialize(self.as_mut()).map(Some);
+                let result = self.as_mut().nested(|de| seed.deserialize(de)).map(Some);
                 // The list header should only be consume once for each list
                 // The sublist will create new DescribedAccess and thus take care of their own
                 // list headers
@@ -1807,7 +1826,7 @@ impl<'de, R: Read<'de>> de::SeqAccess<'de> for DescribedAccess<'_, R> {
                 }
                 result
             }
-            _ => seed.deserialize(self.as_mut()).map(Some),
+            _ => self.as_mut().nested(|de| seed.deserialize(de)).map(Some),
         };
 
         self.counter += 1;
@@ -1839,7 +1858,7 @@ impl<'de, R: Read<'de>> de::MapAccess<'de> for DescribedAccess<'_, R> {
             }
             EncodingCodes::DescribedType => {
                 self.de.enum_type = EnumType::Descriptor;
-                let result = seed.deserialize(self.as_mut()).map(Some);
+                let result = self.as_mut().nested(|de| seed.deserialize(de)).map(Some);
                 if self.counter == 0 {
                     if let StructEncoding::DescribedMap = self.de.struct_encoding {
                         self.field_count = self
@@ -1850,7 +1869,7 @@ impl<'de, R: Read<'de>> de::MapAccess<'de> for DescribedAccess<'_, R> {
                 }
                 result
             }
-            _ => seed.deserialize(self.as_mut()).map(Some),
+            _ => self.as_mut().nested(|de| seed.deserialize(de)).map(Some),
         };
 
         self.counter += 1;
@@ -1866,7 +1885,7 @@ impl<'de, R: Read<'de>> de::MapAccess<'de> for DescribedAccess<'_, R> {
             return Err(de::Error::custom("Invalid length. Expecting value"));
         }
         self.counter += 1;
-        seed.deserialize(self.as_mut())
+        self.as_mut().nested(|de| seed.deserialize(de))
     }
 
     fn next_entry_seed<K, V>(
@@ -1893,8 +1912,8 @@ impl<'de, R: Read<'de>> de::MapAccess<'de> for DescribedAccess<'_, R> {
                 Ok(None)
             }
             _ => {
-                let key = kseed.deserialize(self.as_mut())?;
-                let value = vseed.deserialize(self.as_mut())?;
+                let key = self.as_mut().nested(|de| kseed.deserialize(de))?;
+                let value = self.as_mut().nested(|de| vseed.deserialize(de))?;
                 Ok(Some((key, value)))
             }
         }
